@@ -29,6 +29,8 @@ Theorems, all over the editor state-machine model (`Model/Editor.lean`), for EVE
 * `capslock_toggles_lang` (all four states), `shiftspace_toggles_form` / `shiftspace_disabled` /
   `shiftspace_other_states`, `options_change_only_by_toggle` (no other key in any state changes any
   option), `toggle_preserves_buffer`, `setOptions_preserves_buffer`.
+* Chinese mode, the branches that share the tables: `chinese_shifted_key`, `chinese_shifted_letter`
+  (same behaviour as English mode), `chinese_shifted_symbol` (special symbols are inserted into the buffer).
 * Outside the statement but recorded: `numlock_key_verbatim` (keypad keys ignore the character form),
   `eng_full_unprintable_bell` (F01 as repaired).
 -/
@@ -264,6 +266,86 @@ theorem numlock_key_verbatim {sh : Shared D L} {ev : KeyEvent} (hd : DefaultArm 
   rw [enteringNext_default env hd, if_pos hn]
 
 end English
+
+/-! ## Chinese mode: the branches that share the tables
+
+A key the phonetic layout does not get (here: any shifted character key) falls into
+`chineseFallback`: a character with an entry in `SPECIAL_SYMBOLS` is inserted into the buffer as that
+symbol (in either character form, never committed directly); any other printable character takes the
+same commit-or-insert path as in English mode, in the current character form. -/
+
+section ChineseShared
+variable {D L : Type} (env : Env D L)
+
+theorem inputChar_printable (sh : Shared D L) {ev : KeyEvent} (hp : Printable ev.unicode) :
+    inputChar sh ev = commitOrInsert sh (charOut sh.options.characterForm ev.unicode) := by
+  unfold inputChar
+  cases hf : sh.options.characterForm with
+  | half => rfl
+  | full =>
+    obtain ⟨w, hw⟩ := fullwidth_total hp
+    simp only [fullOrBell, hw, charOut, Option.getD_some]
+
+/-- a shifted character key in Chinese mode (easy-symbol input off) is not offered to the phonetic
+    layout: it goes to `chineseFallback` -/
+theorem chinese_shifted_key {sh : Shared D L} {ev : KeyEvent} (hk : AsciiKey ev) (hsh : ev.mods.shift = true)
+    (hl : sh.options.languageMode = .chinese) (he : sh.options.easySymbolInput = false) :
+    enteringNext env sh ev = chineseFallback sh ev := by
+  have hsp : ev.code ≠ KC.space := fun h => by rw [hk.space h] at hsh; cases hsh
+  have hd : DefaultArm sh ev := by
+    obtain ⟨⟨h1, h2⟩, _, h3, _, _⟩ := hk
+    refine ⟨?_, ?_, ?_, ?_, ?_⟩
+    · simp only [isNamedKey, KC.backspace, KC.tab, KC.del, KC.home, KC.left, KC.right, KC.up, KC.down, KC.end_,
+        KC.pageUp, KC.pageDown, KC.enter, KC.esc, Bool.or_eq_false_iff, beq_eq_false_iff_ne, ne_eq]
+      omega
+    · intro ⟨h, _⟩; simp only [KC.unknown] at h; omega
+    · intro ⟨_, h⟩; rw [h3] at h; cases h
+    · intro ⟨h, _⟩; exact hsp h
+    · intro ⟨h, _⟩; exact hsp h
+  have hnone : ev.mods.isNone = false := by simp [Mods.isNone, hsh]
+  rw [enteringNext_default env hd, if_neg (by simp [hk.noNum])]
+  unfold enteringDefault
+  rw [hl]
+  dsimp only
+  rw [if_neg (by simp [hnone]), if_neg (by simpa using hsp), if_neg (by simp [he]), if_neg (by simp [hnone])]
+
+/-- **Chinese mode, a shifted letter** (`A`…`Z`): exactly the English-mode behaviour — committed at
+    once / inserted at the cursor, verbatim or in its full-width form -/
+theorem chinese_shifted_letter {sh : Shared D L} {ev : KeyEvent} (hk : AsciiKey ev) (hsh : ev.mods.shift = true)
+    (hl : sh.options.languageMode = .chinese) (he : sh.options.easySymbolInput = false)
+    (hu : 65 ≤ ev.unicode ∧ ev.unicode ≤ 90) :
+    enteringNext env sh ev = commitOrInsert sh (charOut sh.options.characterForm ev.unicode) := by
+  rw [chinese_shifted_key env hk hsh hl he]
+  have hp : Printable ev.unicode := hk.uni
+  have hs : specialSymbolInput ev.unicode = none := by
+    have := allLt_spec special_not_alnum_tab (ev.unicode - 32) (printable_index hp).1
+    simp only [(printable_index hp).2] at this
+    have h65 : (65 ≤ ev.unicode && ev.unicode ≤ 90) = true := by simp [hu.1, hu.2]
+    simp only [h65, Bool.or_true, Bool.true_or, Bool.not_true, Bool.false_or, Option.isNone_iff_eq_none] at this
+    exact this
+  unfold chineseFallback
+  rw [hs]
+  dsimp only
+  have : ev.isPrintable = true := by
+    unfold KeyEvent.isPrintable
+    have := hp.2
+    simp only [bne_iff_ne, ne_eq]
+    omega
+  rw [if_pos this]
+  exact inputChar_printable sh hp
+
+/-- **Chinese mode, a shifted symbol key** whose character has an entry in `SPECIAL_SYMBOLS` (`!` → `！`,
+    `<` → `，`, …): that symbol is inserted into the buffer at the cursor, in EITHER character form;
+    nothing is committed directly -/
+theorem chinese_shifted_symbol {sh : Shared D L} {ev : KeyEvent} {s : Nat} (hk : AsciiKey ev)
+    (hsh : ev.mods.shift = true) (hl : sh.options.languageMode = .chinese) (he : sh.options.easySymbolInput = false)
+    (hs : specialSymbolInput ev.unicode = some s) :
+    enteringNext env sh ev = withCom sh (sh.com.insert (.chr s)) fun sh => .ok (sh, .spin .absorb) := by
+  rw [chinese_shifted_key env hk hsh hl he]
+  unfold chineseFallback
+  rw [hs]
+
+end ChineseShared
 
 /-! ## Mode toggles -/
 
